@@ -28,6 +28,9 @@ CLAIMED = {
  'C10': ("Coq proofs that the fit() driver loop = map o filter over the lines before the first end-of-input line (Loop.v), that an uncut stream of well-formed pickles reads back as written (framing model, Reader.v), and that post-processing calls on copies equal the same calls on a file and leave the caller's results unchanged (History.v; the aliasing variant is refuted by a witness); correspondence through fit(), FitInfoFile and all four post-processing functions",
          "Theorems C10_records(_exec)/roundtrip/history(_exec)/aliasing_refuted; fit() run on data files with ineligible, blank and malformed lines and compared record-by-record with Fitter.fit+keep on the parsed lines; hand-built records with NaN/inf round-tripped with metadata; every sequence of <=3 calls of write_parameters/write_parameter_ranges/extract_parameters/filter_output x selectors on file / object / list compared across forms, with a deep before/after comparison of the caller's objects.",
          "Trusts: Coq kernel; extraction; driver; harness. Pickle fidelity and object aliasing are run-time facts: decided by the correspondence runs, the model carries them as the framing model and the explicit copy/alias semantics (partial).", "DESIGN.md 7/C10"),
+ 'C19': ("Coq proof on a framing model of the pickle stream (opcode classes Fixed/LenPre/Line2/Stop): every proper prefix of a pickle scans as Truncated, a complete pickle is consumed exactly, hence a file cut at ANY byte yields exactly the pickles wholly before the cut and then stops (Frame.v, Reader.v); exhaustive correspondence at every truncation offset of real fit files",
+         "Theorems C19_prefix_free/complete/truncation (exact count and end status)/records_prefix/count_bounded for any number and size of records; real files disassembled with pickletools.genops (every opcode mapped to a class, every instruction length checked against its class, unknown opcodes fail closed), Reader.read_all run on the whole file and sampled cuts, FitInfoFile run at EVERY offset and compared with reader_m; yielded records compared with the written ones.",
+         "Trusts: Coq kernel; extraction; driver; harness; pickletools' opcode table. That CPython's unpickler behaves like the scanner (no value before STOP, error on an incomplete pickle) is pickle's contract - assumed, exercised at every offset (partial).", "DESIGN.md 7/C19"),
  'C20': ("Coq proof over the statement-by-statement model of Source.from_ascii (SrcAscii.v: slices, strides, truncating division, setter cross-checks) + correspondence on generated token lists incl. every column count",
          "Theorems C20_layout/reject/accept/flags/eof hold for token lists of any length; the extracted from_ascii_m is run against Source.from_ascii on valid lines (all flag vectors n<=3), every column count 0..3n+6 for n<=12, bad flags, bad numbers; round trips through to_ascii, dict and pickle are checked against the printed precision.",
          "Trusts: Coq kernel; extraction directives; driver; harness. int()/float() conversion of tokens is an oracle computed by Python; text formatting (to_ascii) is exercised, not modelled.", "DESIGN.md 7/C20"),
